@@ -295,3 +295,21 @@ func vScratchDir() string {
 	}
 	return vEnv.Work
 }
+
+// vLeakedLock names a lock of the shared allocators that is still held although no handler is running (the SEQ harnesses
+// call it between requests): the next request that needs the allocator would block its receive loop for good.
+func vLeakedLock(u *upf) string {
+	if g := u.fteidGenerator; g != nil {
+		if !g.lock.TryLock() {
+			return "FTEIDGenerator.lock"
+		}
+		g.lock.Unlock()
+	}
+	if p := u.ippool; p != nil {
+		if !p.mu.TryLock() {
+			return "IPPool.mu"
+		}
+		p.mu.Unlock()
+	}
+	return ""
+}
